@@ -31,6 +31,7 @@ class Contract:
     ghost_updates: dict = field(default_factory=dict)   # ghost lvalue -> expr, executed as ghost code at normal exit
     native_ensures: list = field(default_factory=list)  # extra clauses evaluated only in the native replay
     type_map: dict = field(default_factory=dict)        # annotation text -> type string, for local annotations
+    fp: bool = False                                    # floats are IEEE-754 doubles (z3 FP theory) instead of extended reals
     opaque_raise: bool = False      # operations on values of unknown type (SUT values) may raise any exception
     at_yield: list = field(default_factory=list)        # context-manager generators: clauses that hold while the body runs
     closure: dict = field(default_factory=dict)         # nested functions: free variables of the enclosing def -> type
